@@ -287,6 +287,9 @@ Total == status # "crash"
 NoNilHandle == top.valid
 \* ... and it refers to an object of its own kind that exists for the view it was taken from
 HandleRefOK == (top.t \in {"h", "arr"} /\ top.kind = "contract") => top.ref \in Contracts
+\* under a deviation: only the use of a handle to nothing kills, and such handles come from the named producers only
+CrashOnlyByNil == status = "crash" => ~top.valid
+NilOnlyByDeviation == ~top.valid => NilOnAbsent # {}
 \* every step of a running script is defined: it continues, ends, or faults (checked as: some action is always enabled)
 Defined == status = "run" => ENABLED End
 =============================================================================
